@@ -54,7 +54,7 @@ func (c Case) wire() map[string]any {
 
 func milli(x float64) int { return int(math.Round(x * 1000)) }
 
-var shapeFlavours = []string{"generic", "bundle", "straddle", "thin", "negative", "tie", "sliver", "long", "straddle", "tiny", "generic", "union", "bundle"}
+var shapeFlavours = []string{"generic", "bundle", "straddle", "thin", "plate", "negative", "tie", "sliver", "long", "straddle", "tiny", "generic", "union", "bundle"}
 
 // randomShapeCase: a union of 1-3 spheres / boxes / capsules. Flavours place
 // it generically, across one or several of the canvas' 100-sample block
@@ -63,13 +63,15 @@ var shapeFlavours = []string{"generic", "bundle", "straddle", "thin", "negative"
 // corners), as a long capsule through several blocks, as a thin capsule on a
 // fine canvas (about one cell thick: lattice points with surface on opposite
 // sides), as a bundle of ten such capsules, so small that no lattice point is
-// below the threshold, or ("sliver") as a plate thinner than the 1e-4 cell
-// precision with which the marcher identifies vertices (next to an ordinary
-// sphere, so that the enclosed volume stays positive).
+// below the threshold, or ("sliver", "plate") as a very thin plate on a lattice
+// plane next to an ordinary sphere (so that the enclosed volume stays positive).
 func randomShapeCase(rng *rand.Rand, id, maxCells int) Case {
 	flavour := shapeFlavours[id%len(shapeFlavours)]
 	if flavour == "sliver" {
-		return sliverCase(rng, id)
+		return sliverCase(rng, id, 400, []int{1, 2, 4})
+	}
+	if flavour == "plate" {
+		return sliverCase(rng, id, 120000, []int{20, 25})
 	}
 	c := Case{Kind: "shape", Id: id, Attr: "Position", Unit: 1000, Flavour: flavour}
 	if rng.Intn(4) == 0 {
@@ -246,16 +248,22 @@ func setFrame(c *Case) {
 	}
 }
 
-// sliverCase: a plate 4e-5 cells thick centred on a lattice plane (lengths in
-// 1e-7 units), and a sphere well away from it.
-func sliverCase(rng *rand.Rand, id int) Case {
+// sliverCase: a plate `thick`/1e7 cells thick centred on a lattice plane
+// (lengths in 1e-7 units), and a sphere well away from it. "sliver" (4e-5
+// cell) is thinner than the marcher's own 1e-4 cell vertex identification;
+// "plate" (0.012 cell on a fine canvas, 0.0005-0.0006 world units) is far
+// thicker than that but thinner than 0.001 world units.
+func sliverCase(rng *rand.Rand, id, thick int, cpus []int) Case {
 	c := Case{Kind: "shape", Id: id, Attr: "Position", Unit: 10000000, Flavour: "sliver", Cut: 0}
-	c.Cpu = []int{1, 2, 4}[rng.Intn(3)]
+	if thick > 400 {
+		c.Flavour = "plate"
+	}
+	c.Cpu = cpus[rng.Intn(len(cpus))]
 	u := c.Unit / c.Cpu // one cell
 	k := rng.Intn(41) - 20
 	plate := Shape{T: "box", S: 1000, R: 0,
 		P: []int{(rng.Intn(9)-4)*u + u/3, (rng.Intn(9)-4)*u + u/7, k * u},
-		Q: []int{(3+rng.Intn(4))*u + u/5, (3+rng.Intn(3))*u + u/9, 400 / c.Cpu}}
+		Q: []int{(3+rng.Intn(4))*u + u/5, (3+rng.Intn(3))*u + u/9, thick / c.Cpu}}
 	ball := Shape{T: "sphere", S: 1000, Q: []int{0, 0, 0}, R: 2*u + u/3,
 		P: []int{plate.P[0] + u/11, plate.P[1] - u/13, plate.P[2] + 7*u + u/17}}
 	c.Shapes = []Shape{plate, ball}
